@@ -159,6 +159,9 @@ func c12Monitor(o *c12Obs) (fails []Failure, timing map[string]bool) {
 			continue
 		}
 		all := append(append([]int{}, cs.Pre...), cs.Post...)
+		if scn.Race != "" && ci == 0 {
+			all = append(all, 0) // the request sent into the forced window
+		}
 		for r, d := range all {
 			if d < 0 || d >= scn.GraceMs {
 				expectCtx = true
@@ -186,7 +189,10 @@ func c12Monitor(o *c12Obs) (fails []Failure, timing map[string]bool) {
 			if first("eof", ci, 0) >= 0 {
 				how = "the server closed the connection"
 			}
-			if scn.Pool > 0 && !started {
+			if scn.Race != "" && ci == 0 && r == len(cs.Pre) {
+				add("shutdown/race/"+scn.Race+"/request-lost", fmt.Sprintf("pool %d: request %d of connection 0 was read by the server (conn.Read returned it, the receive loop was held before numInvoke++); the shutdown poller then saw numInvoke = 0, wrote the close message and closed the connection; the handler ran afterwards (started: %v, returned: %v) and its response was lost; %s; Shutdown returned after %d ms",
+					scn.Pool, r, started, ended, how, dur), false)
+			} else if scn.Pool > 0 && !started {
 				add("shutdown/pool>0/queued-jobs-dropped", fmt.Sprintf("pool %d: request %d of connection %d had been read by the server (its bytes had left the socket) but its handler was never started and no response came; %s; shutdown took %d ms of a %d ms grace period",
 					scn.Pool, r, ci, how, dur, scn.GraceMs), false)
 			} else {
@@ -289,8 +295,8 @@ func c12RunCase(c *c12Case) []Failure {
 
 func c12Coq(c *c12Case) string {
 	o := c.Obs
-	if o == nil || o.Err != "" {
-		return ""
+	if o == nil || o.Err != "" || o.Scn.Race != "" {
+		return "" // (a forced race is outside what accepts explains: it never inserts the racing steps)
 	}
 	dur := o.ReturnedT - o.TriggerT
 	drained := dur < int64(o.Scn.GraceMs)-150
@@ -365,7 +371,7 @@ func c12Class(c *c12Case) string {
 		}
 		return "3+"
 	}
-	return fmt.Sprintf("pool=%d conns=%s pre=%s post=%s half=%d never=%d long=%d slow=%d abort=%d quiet=%v phase=%s sig=%s cap=%v", s.Pool, b(len(s.Conns)), b(pre), b(post), half, never, long, slow, abort, s.QuietMs > 0, s.Phase, s.Signal, s.QueueCap > 0)
+	return fmt.Sprintf("pool=%d conns=%s pre=%s post=%s half=%d never=%d long=%d slow=%d abort=%d quiet=%v race=%s phase=%s sig=%s cap=%v", s.Pool, b(len(s.Conns)), b(pre), b(post), half, never, long, slow, abort, s.QuietMs > 0, s.Race, s.Phase, s.Signal, s.QueueCap > 0)
 }
 
 func c12Gen(tier string, rng *rand.Rand) []c12Case {
@@ -453,6 +459,9 @@ func c12Gen(tier string, rng *rand.Rand) []c12Case {
 			add(c12Scn{Pool: pool, GraceMs: 9000, Signal: "DIRECT", Conns: busy(c12ConnScn{Pre: []int{50, 0, 300}, Pipelined: true}, c12ConnScn{Pre: []int{300}}, c12ConnScn{})})
 			// tiny job queue: the receive loop blocks in handleConn
 			add(c12Scn{Pool: pool, QueueCap: 1, Phase: "sent", Conns: []c12ConnScn{{Pre: []int{100, 100, 100, 100, 100, 100}, Pipelined: true}}})
+			// ... and the same with the trigger only after the server has read everything (the receive loop sits in
+			// handleConn with the rest of the requests in its buffer): nothing that was read may be dropped
+			add(c12Scn{Pool: pool, QueueCap: 2, Conns: []c12ConnScn{{Pre: []int{100, 100, 100, 100, 100, 100, 100, 100}, Pipelined: true}, {Pre: []int{50, 50, 50}, Pipelined: true}}})
 			// many queued jobs on several connections
 			add(c12Scn{Pool: pool, Conns: []c12ConnScn{{Pre: []int{50, 50, 50, 50, 50}, Pipelined: true}, {Pre: []int{50, 50, 50}}, {Pre: []int{300}, Post: []int{0, 0, 0}, PostDelayMs: 50}}})
 		}
@@ -491,6 +500,10 @@ func c12Gen(tier string, rng *rand.Rand) []c12Case {
 	}
 	add(acceptFault(0, "TERM"))
 	add(acceptFault(2, "DIRECT"))
+	// the two-instruction window between Read and numInvoke++, forced with the yield hook (Props/C12.v
+	// C12_answered_before_close_refuted, first witness): known finding shutdown/race/read-then-count/request-lost
+	add(c12Scn{Pool: 0, QuietMs: 2300, Signal: "DIRECT", Race: "read-then-count", Conns: []c12ConnScn{{Pre: []int{0}}}})
+	add(c12Scn{Pool: 2, QuietMs: 2300, Signal: "DIRECT", Race: "read-then-count", Conns: []c12ConnScn{{Pre: []int{0}}}})
 	add(quiet(0, 2500, 0, "TERM"))
 	add(quiet(4, 3500, 60000, "DIRECT"))
 	add(quiet(1, 3000, 0, "INT"))
